@@ -12,6 +12,7 @@ GRIDS = {
     "const5": [2000, 2005, 2010, 2015],
     "uneven4": [2000, 2001, 2003, 2008],
     "uneven5": [1990, 1995, 1996, 2000, 2010],
+    "uneven5b": [1990, 1992, 1999, 2005, 2010],      # same length, first and last year as uneven5, other interior years
     "n3": [1, 2, 4],
     "uneven6": [2000, 2002, 2003, 2007, 2008, 2020],
     "unit5": [7, 8, 9, 10, 11],
@@ -40,6 +41,7 @@ def config_list(tier, seed):
         ("uneven4", 4, "step", "gl2", "both", 12, 4, 4),
         ("uneven5", 2, "step", "middle", "lab", 24, 0, 16),
         ("uneven5", 1, "fixed", "gl3", "cohort", 30, 10, 0),
+        ("uneven5b", 2, "step", "middle", "lab", 24, 0, 16),
         ("n3", 2, "step", "end", "scalar", 8, 0, 0),
         ("n3", 4, "fixed", "start", "lab", 10, 0, 6),
         ("uneven6", 1, "step", "middle", "cohort", 16, 4, 0),
